@@ -464,6 +464,11 @@ class TLSMemoryBIOProtocol(ProtocolWrapper):
         # is unregistered:
         if self.disconnecting and self._producer is None:
             return
+        if self._appSendBuffer:
+            # Earlier writes are still waiting for the handshake to complete;
+            # queue behind them so that the stream stays in order.
+            self._bufferedWrite(bytes)
+            return
         self._write(bytes)
 
     def _bufferedWrite(self, octets):
